@@ -494,6 +494,22 @@ def build_jobs(ctx):
         mode = rng.choice(MODES)
         K = code_matrix(rng, n, edges, und, mode, loops=rng.choice([0, 0, 0, 1]), codes=draw_codes(rng, mode))
         jobs += jobs_for(K, mode, "struct-" + name, rng, rc.draw_variant(rng, dtype_family(mode, K), p_plain=0.3))
+    # ---- mid-size dense inputs with few weight values (20..40 nodes, density 0.5..1, a hub in half of
+    #      them): from one source many nodes are EXACTLY equally far - tie groups of 10..30 nodes - and
+    #      reach common neighbours through different weights (small graphs have tie groups of 2..4)
+    for k in range(8 if q else 40):
+        n = rng.randint(20, 40)
+        und = rng.random() < 0.6
+        p = rng.choice([0.5, 0.7, 0.9, 1.0])
+        edges = [(i, j) for i in range(n) for j in range(n) if (i < j if und else i != j) and rng.random() < p]
+        if rng.random() < 0.5:           # a hub at a random number, joined to everybody
+            hub = rng.randrange(n)
+            edges = sorted(set(edges) | set((min(hub, j), max(hub, j)) if und else (hub, j)
+                                            for j in range(n) if j != hub))
+        # most of them as weights with the full value set (1, 1/2, 1/4: every routine incl. efficiency_wei)
+        mode = "inv" if k % 8 < 5 else rng.choice(["len", "inv"])
+        K = code_matrix(rng, n, edges, und, mode, codes=None if k % 8 < 5 else draw_codes(rng, mode))
+        jobs += [dict(j, big=1) for j in jobs_for(K, mode, "dense-ties", rng)]
     # ---- scale regime 1: a dense part next to a long sparse part (clique of 12..30 + path of 36..80
     #      nodes, joined or as two components, or two disjoint copies; shuffled numbering; 50..110
     #      nodes): walk counts explode in the clique (beyond 2^63 and beyond float32's 3.4e38, still
